@@ -391,6 +391,31 @@ func c14Run(c c14Case, st *vlib.Stats) string {
 	if msg := check(eng, "immediately after"); msg != "" {
 		return msg
 	}
+	if !knownHit && c.Failing.Kind != "create" && !c.Tick {
+		// (in the same session, before any restart: what a failed statement may leave behind in the
+		// session is as much a change as a row)
+		if _, exists := m.Tables[c.Failing.Table]; !exists {
+			// the statement failed because its table does not exist: creating that table
+			// afterwards and using it must work as if the failed statement had never been issued
+			cr := model.Stmt{Kind: "create", Table: c.Failing.Table, Cols: []model.Col{{Name: "a", Type: model.TInt}, {Name: "b", Type: model.TVarchar, Len: 10}}}
+			cr.SQL = gen.RenderStmt(gen.Plain(), cr)
+			ins := model.Stmt{Kind: "insert", Table: c.Failing.Table, Rows: [][]model.Val{{model.Int(1), model.Str("x")}, {model.Int(2), model.Str("")}}}
+			ins.SQL = gen.RenderStmt(gen.Plain(), ins)
+			ins2 := model.Stmt{Kind: "insert", Table: c.Failing.Table, InsCols: []string{"b"}, Rows: [][]model.Val{{model.Str("y")}}}
+			ins2.SQL = gen.RenderStmt(gen.Plain(), ins2)
+			for _, s := range []model.Stmt{cr, ins, ins2} {
+				if k, merr := m.Apply(s); merr != nil || k != model.OK {
+					return fmt.Sprintf("harness: follow-up statement invalid in the model: %v %v", k, merr)
+				}
+				if err := eng.ExecStmt(s); err != nil {
+					return fmt.Sprintf("after the failed statement on the unknown table %s, creating and filling that table fails: %v\n  %s", c.Failing.Table, err, s)
+				}
+			}
+			if msg := CompareAll(eng, m, nil); msg != "" {
+				return fmt.Sprintf("after the failed statement on the unknown table %s, then CREATE TABLE and INSERTs: %s", c.Failing.Table, msg)
+			}
+		}
+	}
 	// crash branch: the files as they are now
 	if err := mk.CopyDataDir(dir, img); err != nil {
 		return "image copy failed: " + err.Error()
